@@ -11,6 +11,7 @@ import (
 	"fmt"
 	"io"
 	"io/fs"
+	"net"
 	"os"
 	"path/filepath"
 	"strings"
@@ -235,7 +236,7 @@ type ContentSpec struct {
 }
 
 // ErrKinds are the producer error identities the workloads draw from.
-var ErrKinds = []string{"", "eof", "wrapped-eof", "unexpected-eof", "short-write", "closed", "canceled", "empty-text", "text-4", "text-55"}
+var ErrKinds = []string{"", "eof", "wrapped-eof", "unexpected-eof", "short-write", "closed", "canceled", "empty-text", "text-4", "text-55", "deadline", "net-op"}
 
 func (c ContentSpec) failErr() error {
 	switch c.ErrKind {
@@ -259,6 +260,12 @@ func (c ContentSpec) failErr() error {
 		return errors.New("55")
 	case "canceled":
 		return fmt.Errorf("producer: %w", context.Canceled)
+	case "deadline":
+		// errors of a producer that itself works over a network look like transport errors
+		// (they implement net.Error) although the SMTP connection is healthy
+		return context.DeadlineExceeded
+	case "net-op":
+		return &net.OpError{Op: "read", Net: "tcp", Err: os.ErrDeadlineExceeded}
 	}
 	return ErrInjected
 }
